@@ -25,3 +25,22 @@ package resp
 //@   ghostset after WriteBinary#0: hdrWritten = true
 //@   assert before WriteBinary#1: hdrWritten && !bodyWritten && !mustSkip && len(arg1) > 0 && clArg == len(arg1) && sameSlice(arg1, body)
 //@   ghostset after WriteBinary#1: bodyWritten = true
+
+// writeBodyStream: the header block is written exactly once and first; body bytes, the chunk
+// terminator and trailers are written only when a body may be sent, the fixed-size writer gets exactly
+// the announced length, and chunked framing is announced before a chunked body is written.
+//@ ghost var sHdr int
+//@ ghost var sCL int
+//@ func writeBodyStream(resp, w, sendBody) err
+//@   props C04
+//@   abstract
+//@   noinline
+//@   ghostset-at-entry sHdr = 0
+//@   ghostset-at-entry sCL = -5
+//@   ghostset after SetContentLength: sCL = arg1
+//@   assert before WriteHeader: sHdr == 0
+//@   ghostset after WriteHeader: sHdr = 1
+//@   assert before WriteBodyFixedSize: sHdr == 1 && sendBody && arg2 == contentLength && contentLength >= 0
+//@   assert before WriteBodyChunked: sHdr == 1 && sendBody && sCL == -1
+//@   assert before WriteTrailer: sHdr == 1 && sendBody
+//@   assert before Flush: sHdr == 1
